@@ -28,11 +28,11 @@ Proof.
   intros HP HKT Hsfl Hneg HG HK1. apply Forall_forall. intros d Hd.
   rewrite Forall_forall in HKT, Hneg. specialize (HKT d Hd). specialize (Hneg d Hd).
   split.
-  - intros Hs. pose proof (Hsfl d Hd (sfl_neg_is_sfl d Hneg Hs)) as Hw. split; apply all_before_out.
+  - intros Hs. pose proof (Hsfl d Hd (sfl_neg_is_sfl d Hneg Hs)) as Hw. split; apply all_before_inert.
     + apply Forall_rev. apply Forall_map. eapply Forall_impl; [|exact HP]. intros x Hx. cbv beta in Hx.
       change (t_sd (d_tx x)) with (d_sd x). lia.
     + apply Forall_rev. eapply Forall_impl; [|exact HG]. intros x Hx. cbv beta in Hx. lia.
-  - intros Hn Hl. apply all_before_out. apply Forall_rev. apply Forall_forall. intros g Hg.
+  - intros Hn Hl. apply all_before_inert. apply Forall_rev. apply Forall_forall. intros g Hg.
     pose proof (HK1 g d Hg Hd (loss_row_plain d Hn Hl)) as Hw.
     rewrite Forall_forall in HG. specialize (HG g Hg).
     unfold within_after in Hw. apply andb_false_iff in Hw as [Hw|Hw].
